@@ -71,7 +71,7 @@ extern "C" void harness_roundtrip_path64() {
 // C17.c stub-and-observe: the clipping engine entry points are replaced by recorders (at IR level, DESIGN 1.4)
 struct Rec {
   int n_add; int64_t add_x[4]; int add_type[4]; bool add_open[4];
-  int ct, fr; bool pres, rev, polytree; int n_exec;
+  int ct, fr; bool pres, rev, polytree; int n_exec; int n_tree, n_paths;
   int64_t out_closed_x, out_open_x;
   // offset
   double off_delta, off_miter, off_arc; bool off_pres, off_rev; int off_jt, off_et; int64_t off_in_x; int n_off_add, n_off_exec;
@@ -240,5 +240,58 @@ extern "C" void harness_rectclipd_export() {
   VA(RR.n == 1 && RR.in_x == (int64_t)std::round(x * P10x[p2]) && RR.rect.right == (int64_t)std::round(10.0 * P10x[p2]));   // second call: its own precision
   VA(o2 && o2[4] == 12345.0 * (1 / P10x[p2]));
   VA(Clipper2Lib::RectClipD(r, in, nd_int(9, 100)) == nullptr);
+  verif_reach();
+}
+
+// ---- C11/C17: argument validation of the other three exported Boolean functions (BFN: 1 BooleanOp_PolyTree64, 2 BooleanOpD,
+// 3 BooleanOp_PolyTreeD): bad precision -> -5, bad clip type -> -4, bad fill rule -> -3, each before the engine is touched; every valid
+// combination returns 0 after exactly one Execute with that clip type and fill rule, in tree mode for the tree functions.
+#ifndef BFN
+#define BFN 1
+#endif
+static const double P10w[17] = {1e-8, 1e-7, 1e-6, 1e-5, 1e-4, 1e-3, 1e-2, 1e-1, 1e0, 1e1, 1e2, 1e3, 1e4, 1e5, 1e6, 1e7, 1e8};
+static const int ILOG10w[17] = {-27, -24, -20, -17, -14, -10, -7, -4, 0, 3, 6, 9, 13, 16, 19, 23, 26};
+extern "C" __attribute__((noinline)) double stub_pow_w(double base, double e) {
+  int k = (int)e; VA((double)k == e);
+  if (base == 10.0) { VA(k >= -8 && k <= 8); ASSUME(k >= -8 && k <= 8); return P10w[k + 8]; }
+  VA(base == 2.0 && k >= -40 && k <= 40); ASSUME(k >= -40 && k <= 40);
+  return k >= 0 ? (double)(1LL << k) : 1.0 / (double)(1LL << -k);
+}
+extern "C" __attribute__((noinline)) int stub_ilogb_w(double x) { for (int i = 0; i < 17; ++i) if (x == P10w[i]) return ILOG10w[i]; VA(false); return 0; }
+extern "C" __attribute__((noinline)) void stub_buildtree64(Clipper64* self, PolyPath64& tree, Paths64& open) { R.n_tree++; }
+extern "C" __attribute__((noinline)) void stub_buildtreeD(ClipperD* self, PolyPathD& tree, PathsD& open) { R.n_tree++; }
+extern "C" __attribute__((noinline)) void stub_buildpathsD(ClipperD* self, PathsD& closed, PathsD* open) { R.n_paths++; }
+extern "C" void harness_booleanop_args() {
+  uint8_t ct = nondet_u8(), fr = nondet_u8();
+  bool pres = nondet_bool(), rev = nondet_bool();
+  int prec = nd_int(-12, 12);
+  int rc;
+#if BFN == 1
+  int64_t* subj = mk_cpaths1(5); int64_t* open = mk_cpaths1(6); int64_t* clip = mk_cpaths1(7);
+  CPolyTree64 tree = nullptr; int64_t* sol_open = nullptr;
+  rc = BooleanOp_PolyTree64(ct, fr, subj, open, clip, tree, sol_open, pres, rev);
+  const bool bad_prec = false, want_tree = true;
+#else
+  double* subj = mk_cpathsd1(0.5); double* open = mk_cpathsd1(0.75); double* clip = mk_cpathsd1(0.25);
+  double* sol_open = nullptr;
+  const bool bad_prec = prec < -8 || prec > 8;
+#if BFN == 2
+  double* sol = nullptr;
+  rc = BooleanOpD(ct, fr, subj, open, clip, sol, sol_open, prec, pres, rev);
+  const bool want_tree = false;
+#else
+  CPolyTreeD tree = nullptr;
+  rc = BooleanOp_PolyTreeD(ct, fr, subj, open, clip, tree, sol_open, prec, pres, rev);
+  const bool want_tree = true;
+#endif
+#endif
+  if (bad_prec) { VA(rc == -5); VA(R.n_exec == 0 && R.n_add == 0); }
+  else if (ct > 4) { VA(rc == -4); VA(R.n_exec == 0 && R.n_add == 0); }
+  else if (fr > 3) { VA(rc == -3); VA(R.n_exec == 0 && R.n_add == 0); }
+  else {
+    VA(rc == 0);
+    VA(R.n_exec == 1 && R.ct == ct && R.fr == fr && R.pres == pres && R.rev == rev && R.polytree == want_tree && R.n_add == 3);
+    VA(want_tree ? (R.n_tree == 1 && R.n_paths == 0) : (R.n_tree == 0));
+  }
   verif_reach();
 }
